@@ -1,0 +1,56 @@
+//go:build verif
+
+package refreshable
+
+// Contracts for govc (see /verif/DESIGN.md).  Comment-only file.
+
+//@ import renameio github.com/google/renameio/v2
+//@ import strings strings
+//@ import http net/http
+
+//@ immutable Refreshable.*
+
+// ---------------------------------------------------------------------------
+// C13: the cached copy is replaced only by a complete download; any failure
+// leaves it alone.
+
+//@ func (*Refreshable).withDeferredTmpCleanup
+//@   property C13
+//@   requires f != nil && tmpFile != nil
+//@   modifies replaceCalls, replaces, cleanups
+//@   ensures failure-discards-the-temp-file: returned != nil ==> err != nil && replaceCalls == old(replaceCalls) && replaces == old(replaces) && cleanups == old(cleanups) + 1
+//@   ensures success-replaces-once: returned == nil ==> replaceCalls == old(replaceCalls) + 1 && cleanups == old(cleanups) && (err == nil ==> replaces == old(replaces) + 1) && old(replaces) <= replaces && replaces <= old(replaces) + 1
+
+//@ func (*Refreshable).refreshFromURL
+//@   property C13
+//@   requires f != nil && f.logger != nil && f.http != nil && f.url != nil
+//@   modifies replaceCalls, replaces, cleanups, sbLen, copyFailed
+//@   ensures replaced-at-most-once: replaceCalls <= old(replaceCalls) + 1 && replaces <= old(replaces) + 1
+//@   ensures new-text-only-from-a-complete-download: err == nil ==> len(text) > 0 && replaces == old(replaces) + 1 && !copyFailed
+//@   ensures any-failure-before-the-replace-leaves-the-cache-file: replaceCalls == old(replaceCalls) ==> err != nil && replaces == old(replaces)
+//@   ensures a-failed-transfer-is-never-installed: copyFailed ==> replaceCalls == old(replaceCalls)
+//@   atcall withDeferredTmpCleanup assert the-replace-follows-a-complete-download: err == nil ==> resp != nil && resp.StatusCode == 200 && !copyFailed && sbLen[b] > 0
+
+//@ func (*Refreshable).refreshFromFile
+//@   modifies sbLen, copyFailed
+//@   ensures err != nil ==> text == ""
+
+//@ func (*Refreshable).useCachedOrRefreshFromURL
+//@   property C13
+//@   requires f != nil && f.logger != nil && f.http != nil && f.url != nil
+//@   modifies replaceCalls, replaces, cleanups, sbLen, copyFailed
+//@   ensures no-text-on-failure: err != nil ==> text == ""
+//@   ensures replaceCalls <= old(replaceCalls) + 1
+
+// lastRefreshText is the text returned by the latest Refresh.
+//@ ghost lastRefreshText string
+//@ func (*Refreshable).refreshFromFileOnly
+//@   modifies sbLen, copyFailed
+//@   ensures err != nil ==> text == ""
+//@ func (*Refreshable).Refresh
+//@   property C13
+//@   requires f != nil && f.logger != nil && f.http != nil && f.url != nil
+//@   modifies replaceCalls, replaces, cleanups, sbLen, copyFailed, lastRefreshText
+//@   ghostset lastRefreshText = text
+//@   ensures no-text-on-failure: err != nil ==> text == ""
+//@   ensures lastRefreshText == text && replaceCalls <= old(replaceCalls) + 1
